@@ -265,6 +265,8 @@ type TypeOpts struct {
 	Capsule  bool // allow capsule types
 	NoSet    bool
 	NoMap    bool
+	// CapsuleOps: capsule types include the one with conversion operations.
+	CapsuleOps bool
 	// Long > 0: a tuple or object type is, with probability about 0.55/Long,
 	// a LONG one (5..17 elements / 5..12 attributes of leaf types). 0 = off.
 	Long int
@@ -348,6 +350,11 @@ func drawType(t *rapid.T, o TypeOpts, depth int) spec.T {
 		}
 		return spec.T{K: spec.KObject, Attrs: as}
 	case spec.KCapsule:
+		if o.CapsuleOps {
+			// "C" has conversion operations of its own (to string: fails for odd
+			// payloads; to number; from number: fails outside 0..3)
+			return spec.CapsuleT(rapid.SampledFrom([]string{"A", "B", "A2", "C", "C"}).Draw(t, "cap"))
+		}
 		return spec.CapsuleT(rapid.SampledFrom([]string{"A", "B", "A2"}).Draw(t, "cap"))
 	}
 	return spec.T{K: k}
@@ -1103,7 +1110,7 @@ func mutateNode(t *rapid.T, x spec.T, o TypeOpts) (spec.T, string) {
 		as[i].Opt = !as[i].Opt
 		return spec.T{K: spec.KObject, Attrs: as}, op
 	case "othercapsule":
-		others := map[string][]string{"A": {"A2", "B"}, "A2": {"A", "B"}, "B": {"A", "A2"}}[x.Cap]
+		others := map[string][]string{"A": {"A2", "B"}, "A2": {"A", "B"}, "B": {"A", "A2"}, "C": {"A", "B"}}[x.Cap]
 		if len(others) == 0 {
 			others = []string{"A"}
 		}
